@@ -81,6 +81,15 @@ def _canonical(tree: ast.AST) -> ast.AST:
 
         def visit_If(self, node):
             self.generic_visit(node)
+            # `if A: if B: X` (no else anywhere) is `if A and B: X`
+            if self.depth > 0 and not node.orelse and len(node.body) == 1 and isinstance(node.body[0], ast.If) and not node.body[0].orelse:
+                inner = node.body[0]
+
+                def conj(e):
+                    return list(e.values) if isinstance(e, ast.BoolOp) and isinstance(e.op, ast.And) else [e]
+
+                node.test = ast.copy_location(ast.BoolOp(op=ast.And(), values=conj(node.test) + conj(inner.test)), node.test)
+                node.body = inner.body
             if self.depth > 0 and node.orelse:
                 t = node.test
                 if isinstance(t, ast.UnaryOp) and isinstance(t.op, ast.Not):
